@@ -92,8 +92,17 @@ pub(crate) mod shadow {
     pub(crate) static mut TOK: [std::mem::MaybeUninit<TokenInfo>; CAP] = [const { std::mem::MaybeUninit::uninit() }; CAP];
     pub(crate) static mut LINE_N: usize = 0;
     pub(crate) static mut LINE: [std::mem::MaybeUninit<LineInfo>; CAP] = [const { std::mem::MaybeUninit::uninit() }; CAP];
+    /// The literal buffer is modelled by its length and the list of appended sections. A section
+    /// that is a slice of the source is recorded by its source byte range (no per-byte copies:
+    /// those cost CBMC a symbolic-index array write per byte); an owned string (decoded hex
+    /// literal) is recorded as opaque (offset usize::MAX).
     pub(crate) static mut LIT_N: usize = 0;
-    pub(crate) static mut LIT: [u8; LCAP] = [0; LCAP];
+    pub(crate) const SEC_CAP: usize = 6;
+    pub(crate) static mut SEC_N: usize = 0;
+    pub(crate) static mut SEC_OFF: [usize; SEC_CAP] = [0; SEC_CAP];
+    pub(crate) static mut SEC_LEN: [usize; SEC_CAP] = [0; SEC_CAP];
+    pub(crate) static mut SEC_END: [usize; SEC_CAP] = [0; SEC_CAP];
+    pub(crate) static mut SRC_PTR: usize = 0;
     pub(crate) static mut SRC_LEN: usize = 0;
 
     pub(crate) fn reset(source_len: usize) {
@@ -101,8 +110,24 @@ pub(crate) mod shadow {
             TOK_N = 0;
             LINE_N = 0;
             LIT_N = 0;
+            SEC_N = 0;
+            SRC_PTR = 0;
             SRC_LEN = source_len;
         }
+    }
+    /// Tell the shadow where the source text lives, so that appended slices are recorded as ranges.
+    pub(crate) fn set_source(src: &str) {
+        unsafe {
+            SRC_PTR = src.as_ptr() as usize;
+            SRC_LEN = src.len();
+        }
+    }
+    pub(crate) fn sec_n() -> usize {
+        unsafe { SEC_N }
+    }
+    /// (source offset or usize::MAX, length) of section j
+    pub(crate) fn sec(j: usize) -> (usize, usize) {
+        unsafe { (SEC_OFF[j], SEC_LEN[j]) }
     }
     pub(crate) fn tok_n() -> usize {
         unsafe { TOK_N }
@@ -122,9 +147,6 @@ pub(crate) mod shadow {
             (l.byte_offset.get(), l.start.get())
         }
     }
-    pub(crate) fn lit(i: usize) -> u8 {
-        unsafe { LIT[i] }
-    }
     /// Pre-load a token (look-behind context of a harness).
     pub(crate) fn preload_token(t: TokenInfo) {
         unsafe {
@@ -138,6 +160,7 @@ pub(crate) mod shadow {
     pub(crate) fn preload_literal_bytes(n: usize) {
         unsafe {
             LIT_N = n;
+            SEC_N = 0;
         }
     }
 
@@ -285,14 +308,15 @@ pub(crate) mod shadow {
         pub(crate) fn sh_add_string_literal<S: AsRef<str>>(&mut self, literal: S) -> (u32, u32) {
             unsafe {
                 let start = LIT_N as u32;
-                let b = literal.as_ref().as_bytes();
-                let mut i = 0;
-                while i < b.len() {
-                    assert!(LIT_N < LCAP, "shadow literal capacity");
-                    LIT[LIT_N] = b[i];
-                    LIT_N += 1;
-                    i += 1;
-                }
+                let st = literal.as_ref();
+                assert!(SEC_N < SEC_CAP, "shadow literal section capacity");
+                // borrowed slices come from the source (add_string_literal_from_src); owned strings do not
+                let from_src = std::mem::size_of::<S>() == std::mem::size_of::<&str>() && SRC_PTR != 0;
+                SEC_OFF[SEC_N] = if from_src { (st.as_ptr() as usize).wrapping_sub(SRC_PTR) } else { usize::MAX };
+                SEC_LEN[SEC_N] = st.len();
+                LIT_N += st.len();
+                SEC_END[SEC_N] = LIT_N;
+                SEC_N += 1;
                 (start, LIT_N as u32)
             }
         }
@@ -309,6 +333,15 @@ pub(crate) mod shadow {
                 }
                 if checkpoint.string_literals_len < LIT_N {
                     LIT_N = checkpoint.string_literals_len;
+                    let mut j = 0;
+                    let mut keep = 0;
+                    while j < SEC_CAP {
+                        if j < SEC_N && SEC_END[j] <= LIT_N {
+                            keep = j + 1;
+                        }
+                        j += 1;
+                    }
+                    SEC_N = keep;
                 }
             }
         }
@@ -361,12 +394,9 @@ fn any_work_buffer_mirrored<const NT: usize, const NL: usize, const LN: usize>()
         let c: u8 = kani::any();
         kani::assume(c < 0x80);
         lit[i] = c;
-        unsafe {
-            shadow::LIT[shadow::LIT_N] = c;
-            shadow::LIT_N += 1;
-        }
         i += 1;
     }
+    shadow::preload_literal_bytes(LN);
     let mut lv = Vec::with_capacity(NL + 2);
     lv.extend_from_slice(&lines);
     let mut tv = Vec::with_capacity(NT + 2);
@@ -394,13 +424,6 @@ fn assert_abstraction(b: &WorkTokenizedBuffer) {
         if i < b.line_infos.len() {
             let l = shadow::line(i);
             assert!(b.line_infos[i].byte_offset.get() == l.0 && b.line_infos[i].start.get() == l.1, "C02: shadow refinement: line content");
-        }
-        i += 1;
-    }
-    let mut i = 0;
-    while i < 8 {
-        if i < b.string_literals_buffer.len() {
-            assert!(b.string_literals_buffer.as_bytes()[i] == shadow::lit(i), "C02: shadow refinement: literal content");
         }
         i += 1;
     }
@@ -445,13 +468,27 @@ fn buf_refines_shadow_mutators() {
             assert!(r1 == r2, "C02: shadow refinement: add_line result");
         }
         2 => {
-            let mut tmp = [0u8; 8];
-            let s = any_str::<2, 8>(&mut tmp);
-            kani::assume(s.is_ascii());
-            let r1 = b.add_string_literal(s);
-            let r2 = b.sh_add_string_literal(s);
+            // a slice of a source text at a symbolic char-aligned range
+            let src = "ab\u{e9}c\u{1f525}";
+            shadow::set_source(src);
+            let cuts = [0usize, 1, 2, 4, 5, 9];
+            let (ia, ib): (usize, usize) = (kani::any(), kani::any());
+            kani::assume(ia <= ib && ib < 6);
+            let sl = &src[cuts[ia]..cuts[ib]];
+            let n0 = b.string_literals_buffer.len();
+            let r1 = b.add_string_literal(sl);
+            let r2 = b.sh_add_string_literal(sl);
             assert!(r1 == r2, "C02/C07: shadow refinement: add_string_literal result");
-            assert!(r1.1 as usize == b.string_literals_buffer.len() && (r1.1 - r1.0) as usize == s.len(), "C07: add_string_literal returns the appended range");
+            assert!(r1.0 as usize == n0 && r1.1 as usize == b.string_literals_buffer.len() && (r1.1 - r1.0) as usize == sl.len(), "C07: add_string_literal returns the appended range");
+            assert!(b.string_literals_buffer.as_bytes()[n0..].len() == sl.len(), "C07: literal buffer grew by the section");
+            let mut k = 0;
+            while k < 9 {
+                if k < sl.len() {
+                    assert!(b.string_literals_buffer.as_bytes()[n0 + k] == sl.as_bytes()[k], "C07: add_string_literal appends the section's bytes");
+                }
+                k += 1;
+            }
+            assert!(shadow::sec(shadow::sec_n() - 1) == (cuts[ia], sl.len()), "C07: shadow records the section as a source range");
         }
         _ => {
             let cp = WorkBufferCheckpoint { line_count: kani::any(), token_count: kani::any(), string_literals_len: kani::any() };
